@@ -11,13 +11,12 @@
   case-folded pattern, regular expressions on the path as it is.  The kept files are stored in
   the order of their component lists (pathlib's order).
 
-  `hypB` is the decidable hypothesis under which the model is proved to meet this specification;
-  each conjunct that is not plain well-formedness excludes one recorded defect class
-  (D15b/D15d `spellOK`/`nameOK`, D15c `prefixOK`).  The former conjunct `probeOK` (D15a: the cwd
-  had to be the tree's parent directory, or the tree had to have no empty file and no same-named
-  empty file below the cwd) is gone since /repo d89a92e; `listedExist` — what `os.walk` listed
-  exists for `os.path.exists` — is consistency of the file system, not a restriction on the
-  cwd, the spelling or the tree.
+  `hypB` is the decidable hypothesis under which the model is proved to meet this specification.
+  Since /repo 42ec9ba and 1742c6d every conjunct is plain well-formedness of the pair
+  (environment, tree): the tree has real names, the spelled path leads to something called like the
+  tree, what the walk listed exists, the walk listed the tree.  The conjuncts that excluded recorded
+  defects are gone: `probeOK` (D15a, d89a92e), the spelling restriction of `spellOK` (D15b, D15d:
+  `..`, `sub/..`, `../..`) and `prefixOK` (D15c: all files in one subdirectory).
 -/
 import Torf.Model.Create
 namespace Torf.Create.Spec
@@ -55,16 +54,11 @@ def cleanTree (t : Tree) : Bool :=
     decide ((t.files.map (·.rel)).Nodup) &&
     (!t.files.any (·.rel.isEmpty) || t.files.length == 1)
 
-/-- spellings covered: absolute ones, `.` (in any of its pathlib-equal forms `./`, `.//.` …) and
-    relative ones whose `normpath` still ends in a real name (`T`, `./T`, `T/`, `../P/T`,
-    `x/../T`, `T/sub/..`).  Not covered: relative spellings that `normpath` to `..`, `../..`, …
-    (D15b, D15d) or to `.` without being `.` (`sub/..`, D15d).  For a tree that is a single
-    file the last spelled component is that file's name (`file/..` does not exist). -/
-def spellOK (env : Env) (t : Tree) : Bool :=
-  let B := pathlibNorm env.spelling
-  (B.abs || B.comps.isEmpty ||
-     ((normpath false B.comps).getLast?.any fun c => c != "..")) &&
-  (!t.files.any (·.rel.isEmpty) || isClean (name B.comps))
+/-- a tree that is a single file is addressed by a spelling whose last component is a name:
+    no file system resolves a path *through* a file (`f.bin/x/..` → `ENOTDIR`), but on
+    component lists such a spelling would "lead" to the file -/
+def fileSpellOK (env : Env) (t : Tree) : Bool :=
+  !t.files.any (·.rel.isEmpty) || isClean (name (pathlibNorm env.spelling).comps)
 
 /-- the spelled path, made absolute the way `_set_files` does, ends in the tree's name -/
 def nameOK (env : Env) (t : Tree) : Bool :=
@@ -78,27 +72,8 @@ def nameOK (env : Env) (t : Tree) : Bool :=
 def listedExist (env : Env) (t : Tree) : Bool :=
   t.files.all fun f => env.pathExists (listedPath (pathlibNorm env.spelling) f)
 
-def noPatterns (st : Settings) : Bool :=
-  st.exGlobs.isEmpty && st.exRegexs.isEmpty && st.inGlobs.isEmpty && st.inRegexs.isEmpty
-
-/-- the files `filter_files` is handed since d89a92e: the non-empty ones -/
-def nonEmpty (t : Tree) : List FileEnt := t.files.filter fun f => f.size != 0
-
-/-- `filter_files` takes `commonpath` of the files it is handed — the *non-empty* listed files —
-    for the torrent's directory; that is right when two of them differ in their first component
-    (or the tree is a single file).  If they all share a first component (D15c) the patterns see
-    a distorted path and the hidden test starts below the shared directories — harmless only
-    without patterns and when some non-empty file is not hidden. -/
-def prefixOKOn (st : Settings) (ne : List FileEnt) : Bool :=
-  ne.isEmpty ||
-  ne.any (fun f => ne.any fun g => f.rel.head? != g.rel.head?) ||
-  ne.any (·.rel.isEmpty) ||
-  (noPatterns st && ne.any fun f => !isHidden f.rel)
-
-def prefixOK (st : Settings) (t : Tree) : Bool := prefixOKOn st (nonEmpty t)
-
-def hypB (st : Settings) (env : Env) (t : Tree) : Bool :=
-  cleanTree t && spellOK env t && nameOK env t && listedExist env t && prefixOK st t &&
+def hypB (env : Env) (t : Tree) : Bool :=
+  cleanTree t && fileSpellOK env t && nameOK env t && listedExist env t &&
     env.order.isPerm t.files
 
 end Torf.Create.Spec
